@@ -18,7 +18,7 @@ RULE = ("frames of 0..40 rows (thorough: ..120), 1..3 sort keys over 10 dtype ki
 
 
 def gen_case(rng, tier):
-    spec = framegen.gen_frame(rng, tier, kinds=framegen.KEY_KINDS + ["objint"])
+    spec = framegen.gen_frame(rng, tier, kinds=framegen.KEY_KINDS + ["objint"] + framegen.UINT_KINDS)
     names = [c["name"] for c in spec["cols"]]
     k = rng.choice([1, 1, 2, 2, 3])
     keys = rng.sample(names, min(k, len(names)))
@@ -34,6 +34,8 @@ def gen_cases(ctx):
         {"op": "sort", "frame": {"n": 3, "cols": [{"name": "a", "kind": "str", "vals": ["\U0001F600", "", "a"]}]}, "keys": [["a", 1]]},
         {"op": "sort", "frame": {"n": 3, "cols": [{"name": "a", "kind": "int", "vals": [0, -9223372036854775808, 5]}]}, "keys": [["a", -1]]},
         {"op": "sort", "frame": {"n": 4, "cols": [{"name": "a", "kind": "timedelta", "vals": [3, None, 1, 2]}]}, "keys": [["a", -1]]},
+        {"op": "sort", "frame": {"n": 4, "cols": [{"name": "a", "kind": "uint8", "vals": [3, 0, 255, 0]}]}, "keys": [["a", -1]]},
+        {"op": "sort", "frame": {"n": 4, "cols": [{"name": "a", "kind": "ustr", "vals": ["b", "", "a", ""]}, {"name": "b", "kind": "int", "vals": [1, 1, 2, 2]}]}, "keys": [["b", 1], ["a", 1]]},
         {"op": "sort", "frame": {"n": 4, "cols": [{"name": "a", "kind": "strlong", "vals": ["a" * 50 + "b", "a" * 50 + "a", "a" * 50 + "b", "a" * 50]}]}, "keys": [["a", 1]]},
         # known finding (trailing-nul): a trailing null character is dropped by the fixed-width fast path ("a\0" sorts as "a")
         {"op": "sort", "frame": {"n": 4, "cols": [{"name": "a", "kind": "str", "vals": ["a\x00", "a", "a\x00", "b"]}]}, "keys": [["a", 1]]},
